@@ -34,7 +34,13 @@ def program(mapping: str, ndef: int, k: int) -> str:
     if k == EMPTY:
         return f"*=0x{a:06x}\nstart:\nvalue = 5\nother := 6\n"
     # (two labels at one address; a TAB inside a string)
-    lines = [f"*=0x{a:06x}", "start:", "start_alias:", "lda.w #0x1234", "sta.l start", ".ascii 'A\tB'"]
+    lines = []
+    if k % 4 == 0:
+        # the source declares its own mapping (covering every address the template uses)
+        lines += {"high": [".map identifier=1 bank_range=0xc0, 0xff addr_range=0x0000, 0xffff mask=0x10000"]}.get(mapping, [
+            ".map identifier=1 bank_range=0x00, 0x3f addr_range=0x8000, 0xffff mask=0x8000 mirror_bank_range=0x80, 0xbf"])
+        lines += [".map identifier=2 bank_range=0x7e, 0x7f addr_range=0x0000, 0xffff mask=0x10000 writable=1"]
+    lines += [f"*=0x{a:06x}", "start:", "start_alias:", "lda.w #0x1234", "sta.l start", ".ascii 'A\tB'"]
     if ndef >= 1:
         lines += [".dw DEFV", "lda.w #DEFV + 1", "derived = DEFV & 0xff", ".db derived"]
     if ndef >= 2:
@@ -59,6 +65,9 @@ def program(mapping: str, ndef: int, k: int) -> str:
     sections.append([f"*=0x{other + 0x9004:06x}", ".db 1, 2, 3, 4", f"*=0x{other + 0x9000:06x}", ".db 9, 9, 9, 9, 9, 9", f"*=0x{other + 0x9003:06x}", ".db 7, 7"])
     # a block written again, unchanged, after another block overwrote part of it
     sections.append([f"*=0x{other + 0xA000:06x}", ".db 1, 2, 3, 4", f"*=0x{other + 0xA002:06x}", ".db 0x99, 0x98, 0x97, 0x96", f"*=0x{other + 0xA000:06x}", ".db 1, 2, 3, 4"])
+    # a block of zero bytes that overwrites part of an earlier block, and one that is the highest block of the image
+    sections.append([f"*=0x{other + 0xB000:06x}", ".db 5, 6, 7, 8", f"*=0x{other + 0xB001:06x}", ".db 0, 0"])
+    sections.append([f"*=0x{other + 0xF000:06x}", ".db 0, 0, 0"])
     # the order in which the positions are visited rotates with k (ascending, middle-low-high, high first, ...)
     r = (k // 2) % len(sections)
     for sec in sections[r:] + sections[:r]:
